@@ -9,6 +9,7 @@ import SymfcModel.Lemmas.EigAssemble
 import SymfcModel.Lemmas.BlockDiag
 import SymfcModel.Lemmas.FindBlocks
 import SymfcModel.Lemmas.Deflation
+import SymfcModel.Lemmas.DeflationBlocks
 namespace Symfc.C15
 open Symfc
 
@@ -181,5 +182,32 @@ theorem compressed_contraction_unit_eigenvectors {k : Type*} [Fintype k] [Decida
   Deflation.compressed_contraction_unit_iff C hC A hA hle v
 
 end L3
+
+section Assembly
+open Matrix
+variable {K : Type*} [Field K] {o : Type*} [Fintype o] [DecidableEq o]
+variable {m' k' q' : o → Type*} [∀ i, Fintype (m' i)] [∀ i, DecidableEq (m' i)]
+  [∀ i, Fintype (k' i)] [∀ i, DecidableEq (k' i)] [∀ i, Fintype (q' i)] [∀ i, DecidableEq (q' i)]
+
+/-- C15.c: what the sub-block loop of `_block_eigh_projector` assembles meets the hypotheses of
+    `block_divided_deflation_is_exact`. `eigvecs_block` is the block-diagonal of the sub-block eigenvectors `V_s`, `cmplt`
+    the block-diagonal of the sub-block complements `Q_s`; if in every sub-block `[V_s Q_s]` is orthogonal (for a skipped
+    sub-block: no eigenvector column and the identity as complement, `skipped_sub_block_is_complete` — the fix of F4),
+    then `Q` has orthonormal columns, `VᵀQ = 0` and `V Vᵀ + Q Qᵀ = 1` for the whole block. A sub-block left out of the
+    complement (the old code, seeded change b06) is exactly a failure of the last identity. -/
+theorem block_divided_assembly_meets_the_deflation_hypotheses (V : ∀ i, Matrix (m' i) (k' i) K)
+    (Q : ∀ i, Matrix (m' i) (q' i) K) (hQ : ∀ i, (Q i)ᵀ * Q i = 1) (hVQ : ∀ i, (V i)ᵀ * Q i = 0)
+    (hsplit : ∀ i, V i * (V i)ᵀ + Q i * (Q i)ᵀ = 1) :
+    (blockDiagonal' Q)ᵀ * blockDiagonal' Q = 1 ∧ (blockDiagonal' V)ᵀ * blockDiagonal' Q = 0 ∧
+      blockDiagonal' V * (blockDiagonal' V)ᵀ + blockDiagonal' Q * (blockDiagonal' Q)ᵀ = 1 :=
+  ⟨Deflation.assembled_complement_is_orthonormal Q hQ, Deflation.assembled_columns_are_orthogonal V Q hVQ,
+    Deflation.assembled_columns_split_the_identity V Q hsplit⟩
+
+/-- C15.c: a skipped sub-block — no eigenvector column, identity complement — satisfies the per-sub-block hypothesis. -/
+theorem skipped_sub_block_is_complete {μ : Type*} [Fintype μ] [DecidableEq μ] (V : Matrix μ Empty K) :
+    V * Vᵀ + (1 : Matrix μ μ K) * (1 : Matrix μ μ K)ᵀ = 1 :=
+  Deflation.skipped_sub_block_splits V
+
+end Assembly
 
 end Symfc.C15
